@@ -29,6 +29,7 @@ def simenv(extra):
     gd = env.get("GODEBUG", "")
     env["GODEBUG"] = (gd + "," if gd else "") + "randseednop=0"
     env.setdefault("GOMAXPROCS", "2")
+    env["VERIF_KNOWN_FILE"] = os.path.join(ROOT, "known_findings.json")
     env.update({k: str(v) for k, v in extra.items()})
     return env
 
@@ -281,7 +282,11 @@ def run_check(prop, args, wdir):
     choices = 0
     samples = []
     failures = []
+    soft_known = {}
     for s in sums:
+        for k, v in (s.get("known_hits") or {}).items():
+            soft_known.setdefault(k, [v, 0])
+            soft_known[k][1] += (s.get("known_runs") or {}).get(k, 0)
         sched.update(s.get("sched") or [])
         nontriv.update(s.get("nontrivial") or [])
         states.update(s.get("states") or [])
@@ -361,7 +366,8 @@ def run_check(prop, args, wdir):
         "build_s": round(build_s, 2),
         "components": meta.get("components", {}),
         "determinism_selftest": st,
-        "known_findings_hit": [k["key"] for k, _ in known_hit],
+        "known_findings_hit": [k["key"] for k, _ in known_hit] + sorted(soft_known),
+        "known_finding_runs": {k: v[1] for k, v in soft_known.items()},
         "violation_classes": [c for c, _, _ in violations],
         "infra": infra,
     }
@@ -382,6 +388,9 @@ def run_check(prop, args, wdir):
         log("warning: probes never hit: %s" % ", ".join(zero_probes))
     for k, rpath in known_hit:
         log("KNOWN-FINDING: property=%s %s (replay %s)" % (prop, k["what"], rpath))
+    for cls, (msg, n) in sorted(soft_known.items()):
+        kf = match_known(prop, cls)
+        log("KNOWN-FINDING: property=%s %s [class %s met in %d runs; first: %s]" % (prop, kf["what"] if kf else cls, cls, n, msg[:300]))
     for cls, rpath, rf in violations:
         log("violation class: %s" % cls)
         log("  " + ((rf.get("violation") or {}).get("msg", "")[:1500]).replace("\n", "\n  "))
